@@ -3,16 +3,23 @@
    position), D14 (loop instead of recursion: same results) and C06-ZLB (an empty FileContent
    block is stepped over instead of being reported as Ok(0)) repairs.  Definitions only. *)
 From MLA Require Import Base Stream Blocks.
+From MLA Require Export Limit.
 Open Scope N_scope.
 
 Section Reader.
+  Context {LIM : Limit}.                  (* BINCODE_MAX_DESERIALIZE *)
   Variable FNMAX : N.
   Variables T_START T_CONTENT T_EOA T_EOF : N.
   Variable S : Stream.
 
   Notation parse_block := (parse_block FNMAX T_START T_CONTENT T_EOA T_EOF S).
 
-  (* ArchiveFooter::deserialize_from *)
+  (* ArchiveFooter::deserialize_from.  bincode runs over `src.take(len)` under
+     `.with_limit(len.min(BINCODE_MAX_DESERIALIZE))` (lib.rs:524-527): every read of the
+     deserializer (each u64, each string after its length, bincode 1.3.3 de/mod.rs
+     `read_bytes`) is charged against the limit BEFORE it is performed, so the map is delivered
+     iff it parses from the region AND the bytes it consumes, len (ser_footer_map m), fit the
+     limit; a SizeLimit error is a DeserializationError like any other bincode failure. *)
   Definition read_footer (s : st S) : st S * res footer :=
     match sk S s (FromEnd (-4)) with
     | (s1, Ok pos) =>
@@ -25,7 +32,8 @@ Section Reader.
           match read_full S (Datatypes.S (N.to_nat l)) s3 l with
           | (s4, Ok b) =>
             match parse_footer_map b with
-            | Some m => (s4, Ok m)
+            | Some m =>
+              if N.min l lim <? len (ser_footer_map m) then (s4, Err EDeser) else (s4, Ok m)
             | None => (s4, Err EDeser)
             end
           | (s4, Err e) => (s4, Err EDeser)
